@@ -10,7 +10,8 @@
 (* does, must be rejected; "remove" = repaired, must satisfy the invariants). *)
 EXTENDS Snapshot, Json
 
-O(op, a, b, n, g) == [op |-> op, a |-> a, b |-> b, n |-> n, g |-> g]
+OD(op, a, b, n, g, da, db) == [op |-> op, a |-> a, b |-> b, n |-> n, g |-> g, da |-> da, db |-> db]
+O(op, a, b, n, g) == OD(op, a, b, n, g, "data", "data")      \* everything in the data directory
 
 MCU    == 4
 MCRecs == <<2, 3, 2, 2>>    \* generation 0: 2 records, 1: 3 records, 2 and 3: 2 records
@@ -44,6 +45,13 @@ OpsWriteFailBoundary == WriteFailAfter(4, 0)    \* 4 units stored: exactly one r
 OpsWriteFailEmpty    == WriteFailAfter(0, 0)    \* nothing stored
 \* ... followed by a further, successful snapshot (the shutdown snapshot after a failed periodic one)
 OpsWriteFailThenGood == WriteFailAfter(5, 1) \o Cycle("tmp3", 3, 4, 4)
+
+\* the temporary file is created in $TMPDIR (os.CreateTemp("", ...)) and renamed into the data directory:
+\* fine on one file system (CrossDevice = FALSE), never delivered on two (CrossDevice = TRUE)
+CycleTmpDir(t, g, w) == << OD("create", t, "", 0, g, "tmpdir", ""), OD("write", t, "", w, g, "tmpdir", ""),
+                           OD("fsync", t, "", 0, g, "tmpdir", ""), OD("close", t, "", 0, g, "tmpdir", ""),
+                           OD("rename", t, "final", 0, g, "tmpdir", "data") >>
+OpsTmpElsewhere == CycleTmpDir("tmp1", 1, 12) \o CycleTmpDir("tmp2", 2, 8)
 
 View == <<pc, ino, dir, ddir, dlog, hnd, begun, done, failed, errh, epc, hasPrev, phase, post>>
 =============================================================================
